@@ -136,7 +136,7 @@ def run(ctx):
         d(["--seed", ctx.seed + 2, "--cases", 40 if quick else 400, "--len", 40, "sel", "full"], "waitset.capacity.select")
         # finite deadlines / intervals under the logical clock (real sleeps)
         d(["--seed", ctx.seed + 3, "--cases", 100 if quick else 1500, "--len", 30 if quick else 40, "timed"], "waitset.timed")
-        d(["--exhaustive", 3 if quick else 4, "timed", "cap"], "waitset.exhaustive.timed", shrink=False)
+        d(["--exhaustive", 3, "timed", "cap", "one"] if quick else ["--exhaustive", 4, "timed", "cap"], "waitset.exhaustive.timed", shrink=False)
         replay_findings(ctx)
     return core.finish(
         ctx, level="proof",
